@@ -1,6 +1,7 @@
 //! 14-bit Control Change: message (C07), scanner observer and inductive step (C08), and the
 //! isolation / transparency / reset clauses read off the same step (C15, C16, C17).
 use crate::dom::*;
+use crate::check;
 use crate::nd::Nd;
 use crate::oracle as o;
 use crate::{returned, witness};
@@ -22,22 +23,22 @@ pub fn message_ok<N: Nd>(nd: &mut N) {
     let n = nd.u8_le(31);
     let v = nd.u16_le(16383);
     let m = ControlChange14BitMessage::new(chv(c), cnv(n), u14v(v));
-    assert!(m.channel().get() == c, "C07 channel reported back");
-    assert!(m.msb_controller_number().get() == n, "C07 MSB controller number reported back");
-    assert!(m.lsb_controller_number().get() == n + 32, "C07 LSB controller number = MSB + 32");
-    assert!(m.value().get() == v, "C07 value reported back");
-    assert!(m.value().get() <= 16383 && m.lsb_controller_number().get() <= 127, "C04 CC14 getters in range");
+    check!(m.channel().get() == c, "C07 channel reported back");
+    check!(m.msb_controller_number().get() == n, "C07 MSB controller number reported back");
+    check!(m.lsb_controller_number().get() == n + 32, "C07 LSB controller number = MSB + 32");
+    check!(m.value().get() == v, "C07 value reported back");
+    check!(m.value().get() <= 16383 && m.lsb_controller_number().get() <= 127, "C04 CC14 getters in range");
     let e0 = (0xB0 | c, n, o::hi7(v));
     let e1 = (0xB0 | c, n + 32, o::lo7(v));
     let raw: [RawShortMessage; 2] = m.to_short_messages();
-    assert!(b3(&raw[0]) == e0, "C07 first message: controller n with the high 7 bits");
-    assert!(b3(&raw[1]) == e1, "C07 second message: controller n+32 with the low 7 bits");
+    check!(b3(&raw[0]) == e0, "C07 first message: controller n with the high 7 bits");
+    check!(b3(&raw[1]) == e1, "C07 second message: controller n+32 with the low 7 bits");
     let st: [StructuredShortMessage; 2] = m.to_short_messages();
-    assert!(st[0] == expected_structured(e0) && st[1] == expected_structured(e1), "C07 structured encoding");
+    check!(st[0] == expected_structured(e0) && st[1] == expected_structured(e1), "C07 structured encoding");
     let raw2: [RawShortMessage; 2] = m.into();
-    assert!(raw2[0] == raw[0] && raw2[1] == raw[1], "C07 array conversion equals to_short_messages (raw)");
+    check!(raw2[0] == raw[0] && raw2[1] == raw[1], "C07 array conversion equals to_short_messages (raw)");
     let st2: [StructuredShortMessage; 2] = m.into();
-    assert!(st2[0] == st[0] && st2[1] == st[1], "C07 array conversion equals to_short_messages (structured)");
+    check!(st2[0] == st[0] && st2[1] == st[1], "C07 array conversion equals to_short_messages (structured)");
     witness!(nd, v == 16383 && n == 31 && c == 15, "maximal message");
 }
 
@@ -88,7 +89,7 @@ pub fn gen(a: &Obs) -> Scanner {
     while c < 16 {
         if let Some((n, v)) = a.last[c] {
             let r = s.feed(&RawShortMessage::control_change(chv(c as u8), cnv(n), u7v(v)));
-            assert!(r.is_none(), "C08 an MSB alone reports nothing");
+            check!(r.is_none(), "C08 an MSB alone reports nothing");
         }
         c += 1;
     }
@@ -116,7 +117,7 @@ fn out3(r: Option<ControlChange14BitMessage>) -> Option<(u8, u8, u16)> {
 
 fn check_out_range(r: &Option<ControlChange14BitMessage>) {
     if let Some(m) = r {
-        assert!(
+        check!(
             m.channel().get() <= 15 && m.msb_controller_number().get() <= 31 && m.value().get() <= 16383,
             "C04 scanner output in range"
         );
@@ -135,14 +136,14 @@ pub fn step_cc<N: Nd>(nd: &mut N, mask: u16, ch: u8) {
     check_out_range(&out);
     let expect = spec_cc(&mut a, ch, d1, d2);
     if d1 >= 64 {
-        assert!(out.is_none(), "C16 C08 controller outside 0-63 reports nothing");
-        assert!(s == before, "C16 C08 controller outside 0-63 leaves the scanner in an equal state");
+        check!(out.is_none(), "C16 C08 controller outside 0-63 reports nothing");
+        check!(s == before, "C16 C08 controller outside 0-63 leaves the scanner in an equal state");
     }
     if let Some(m) = &out {
-        assert!(m.channel().get() == ch, "C15 C08 reported message carries the channel of the input");
+        check!(m.channel().get() == ch, "C15 C08 reported message carries the channel of the input");
     }
-    assert!(out3(out) == expect, "C08 C07 reports exactly the justified message (channel, MSB controller, 128 x MSB value + LSB value)");
-    assert!(s == gen(&a), "C08 C15 C16 post-state is the state of the advanced observer (only the addressed channel changes)");
+    check!(out3(out) == expect, "C08 C07 reports exactly the justified message (channel, MSB controller, 128 x MSB value + LSB value)");
+    check!(s == gen(&a), "C08 C15 C16 post-state is the state of the advanced observer (only the addressed channel changes)");
     witness!(nd, out.is_some(), "reported");
     witness!(nd, d1 >= 32 && d1 < 64 && out.is_none(), "LSB without matching MSB");
     witness!(nd, d1 < 32, "MSB");
@@ -157,10 +158,10 @@ pub fn step_other<N: Nd>(nd: &mut N, mask: u16) {
     let t = any_valid_triple(nd);
     nd.assume(t.0 & 0xF0 != 0xB0);
     let out = s.feed(&raw_of(t));
-    assert!(out.is_none(), "C16 C15 C08 a message that is not a Control Change reports nothing");
-    assert!(s == before, "C16 C15 C08 a message that is not a Control Change leaves the scanner in an equal state");
+    check!(out.is_none(), "C16 C15 C08 a message that is not a Control Change reports nothing");
+    check!(s == before, "C16 C15 C08 a message that is not a Control Change leaves the scanner in an equal state");
     let out2 = s.feed(&raw_of(t).to_structured());
-    assert!(out2.is_none() && s == before, "C16 C15 C08 same for the structured representation");
+    check!(out2.is_none() && s == before, "C16 C15 C08 same for the structured representation");
     witness!(nd, t.0 >= 0xF0, "system message");
     witness!(nd, t.0 < 0xB0, "channel voice message");
 }
@@ -171,8 +172,8 @@ pub fn reset_and_copy<N: Nd>(nd: &mut N, mask: u16) {
     let a = any_obs(nd, mask);
     let mut s = gen(&a);
     let copy = s;
-    assert!(gen(&EMPTY) == Scanner::new(), "C08 base case: the empty observer is the new scanner");
-    assert!(Scanner::new() == Scanner::default(), "C17 new() equals default()");
+    check!(gen(&EMPTY) == Scanner::new(), "C08 base case: the empty observer is the new scanner");
+    check!(Scanner::new() == Scanner::default(), "C17 new() equals default()");
     // a copy evolves identically and independently
     let c = nd.u8_le(15);
     let d1 = nd.u8_le(63);
@@ -180,12 +181,12 @@ pub fn reset_and_copy<N: Nd>(nd: &mut N, mask: u16) {
     let m = RawShortMessage::control_change(chv(c), cnv(d1), u7v(d2));
     let mut s2 = copy;
     let o1 = s.feed(&m);
-    assert!(s2 == copy && copy == gen(&a), "C17 stepping the original leaves the copy untouched");
+    check!(s2 == copy && copy == gen(&a), "C17 stepping the original leaves the copy untouched");
     let o2 = s2.feed(&m);
-    assert!(o1 == o2 && s == s2, "C17 a copy evolves identically");
+    check!(o1 == o2 && s == s2, "C17 a copy evolves identically");
     s.reset();
-    assert!(s == Scanner::new(), "C17 C08 after reset() the scanner equals a new one");
-    assert!(s2 != s || s2 == Scanner::new(), "C17 resetting the original does not reset the copy");
+    check!(s == Scanner::new(), "C17 C08 after reset() the scanner equals a new one");
+    check!(s2 != s || s2 == Scanner::new(), "C17 resetting the original does not reset the copy");
     witness!(nd, copy != Scanner::new(), "non-initial state");
 }
 
@@ -199,12 +200,12 @@ pub fn inversion<N: Nd>(nd: &mut N, mask: u16, ch: u8) {
     let msg = ControlChange14BitMessage::new(chv(ch), cnv(n), u14v(v));
     let mut s2 = s;
     let raw: [RawShortMessage; 2] = msg.to_short_messages();
-    assert!(s.feed(&raw[0]).is_none(), "C07 first encoded message yields nothing");
-    assert!(s.feed(&raw[1]) == Some(msg), "C07 second encoded message yields exactly the original");
+    check!(s.feed(&raw[0]).is_none(), "C07 first encoded message yields nothing");
+    check!(s.feed(&raw[1]) == Some(msg), "C07 second encoded message yields exactly the original");
     let st: [StructuredShortMessage; 2] = msg.to_short_messages();
-    assert!(s2.feed(&st[0]).is_none(), "C07 first encoded message yields nothing (structured)");
-    assert!(s2.feed(&st[1]) == Some(msg), "C07 second encoded message yields exactly the original (structured)");
-    assert!(s == s2, "C03 C07 both representations drive the scanner identically");
+    check!(s2.feed(&st[0]).is_none(), "C07 first encoded message yields nothing (structured)");
+    check!(s2.feed(&st[1]) == Some(msg), "C07 second encoded message yields exactly the original (structured)");
+    check!(s == s2, "C03 C07 both representations drive the scanner identically");
     witness!(nd, a.last[ch as usize].is_some(), "stale MSB present");
 }
 
@@ -226,7 +227,7 @@ pub fn literal<N: Nd>(nd: &mut N, c1: u8, c2: u8) {
             let c = if kind == 0 { c1 } else { c2 };
             let out = s.feed(&RawShortMessage::control_change(chv(c), cnv(d1), u7v(d2)));
             let e = spec_cc(&mut a, c, d1, d2);
-            assert!(out3(out) == e, "C08 C15 C17 literal history: output equals the observer's");
+            check!(out3(out) == e, "C08 C15 C17 literal history: output equals the observer's");
             if out.is_some() {
                 reported += 1;
             }
@@ -252,9 +253,9 @@ pub fn interleave<N: Nd>(nd: &mut N, c1: u8, c2: u8) {
         let m = RawShortMessage::control_change(chv(c), cnv(d1), u7v(d2));
         let o_both = both.feed(&m);
         let o_own = if first { own1.feed(&m) } else { own2.feed(&m) };
-        assert!(o_both == o_own, "C15 interleaved stream reports what the channel's own scanner reports");
+        check!(o_both == o_own, "C15 interleaved stream reports what the channel's own scanner reports");
         if let Some(x) = o_both {
-            assert!(x.channel().get() == c, "C15 reported channel is the input's channel");
+            check!(x.channel().get() == c, "C15 reported channel is the input's channel");
             reported += 1;
         }
         k += 1;
@@ -266,11 +267,11 @@ pub fn interleave<N: Nd>(nd: &mut N, c1: u8, c2: u8) {
 pub fn predicates<N: Nd>(nd: &mut N) {
     let n = nd.u8_le(127);
     let cn = cnv(n);
-    assert!(cn.can_be_part_of_14_bit_control_change_message() == (n <= 63), "C16 can_be_part_of_14_bit_control_change_message holds exactly for 0-63");
+    check!(cn.can_be_part_of_14_bit_control_change_message() == (n <= 63), "C16 can_be_part_of_14_bit_control_change_message holds exactly for 0-63");
     let l = cn.corresponding_14_bit_lsb_controller_number();
-    assert!(l.map(|x| x.get()) == if n <= 31 { Some(n + 32) } else { None }, "C16 corresponding_14_bit_lsb_controller_number is n+32 exactly for 0-31");
-    assert!(cn.is_parameter_number_message_controller_number() == o::is_pn_controller(n), "C16 is_parameter_number_message_controller_number holds exactly for {6,38,96..101}");
-    assert!(cn.is_channel_mode_message_controller_number() == (n >= 120), "C02 is_channel_mode_message_controller_number holds exactly for 120-127");
+    check!(l.map(|x| x.get()) == if n <= 31 { Some(n + 32) } else { None }, "C16 corresponding_14_bit_lsb_controller_number is n+32 exactly for 0-31");
+    check!(cn.is_parameter_number_message_controller_number() == o::is_pn_controller(n), "C16 is_parameter_number_message_controller_number holds exactly for {6,38,96..101}");
+    check!(cn.is_channel_mode_message_controller_number() == (n >= 120), "C02 is_channel_mode_message_controller_number holds exactly for 120-127");
     witness!(nd, n == 63, "boundary 63");
 }
 
@@ -281,5 +282,5 @@ pub fn twin<N: Nd>(nd: &mut N) {
     let d1 = nd.u8_le(63);
     let d2 = nd.u8_le(127);
     let out = s.feed(&RawShortMessage::control_change(chv(0), cnv(d1), u7v(d2)));
-    assert!(out.is_none(), "twin: deliberately false");
+    check!(out.is_none(), "twin: deliberately false");
 }
